@@ -39,13 +39,31 @@ def setup(h):
     return hb, m, m.sqrt(hb), m.sqrt(hb / 2)
 
 
-@proof(["C15", "C06"], OPS + ":MeasureHomodyne._apply")
+def op_snapshot(op):
+    """old(op): every instance attribute by identity, list-valued ones also element by element"""
+    return {k: (v, list(v) if isinstance(v, list) else None) for k, v in vars(op).items()}
+
+
+def op_unchanged(op, snap):
+    cur = vars(op)
+    if set(cur) != set(snap):
+        return False
+    for k, (v, items) in snap.items():
+        if cur[k] is not v:
+            return False
+        if items is not None and (len(v) != len(items) or any(a is not b for a, b in zip(v, items))):
+            return False
+    return True
+
+
+@proof(["C15", "C06", "C09"], OPS + ":MeasureHomodyne._apply")
 def _homodyne(h):
     ops = h.module(OPS)
     hb, m, rt, s = setup(h)
     sel = h.real("select_scaled")           # user's select = sel * sqrt(hbar)
     op = ops.MeasureHomodyne(h.real("phi"), select=sel * rt)
     be = RecBackend(h)
+    snap = op_snapshot(op)
     out = h.call(op._apply, [0], be, shots=1)
     h.ensure("no-exception", out.returned)
     if not out.returned:
@@ -55,6 +73,11 @@ def _homodyne(h):
     h.ensure("select-handed-to-backend-is-hbar-free", eqv(kw["select"], sel * m.sqrt(2)))
     h.ensure("result~sqrt(hbar)", eqv(out.value, be.outcome * s))
     h.ensure("angle-unchanged", a[0] is op.p[0])
+    # frame: the operation object (shared by every use of it and by compiled copies of the program) is left as it was,
+    # so a second application hands the same hbar-free value to the backend
+    h.ensure("operation-untouched", op_unchanged(op, snap))
+    out2 = h.call(op._apply, [0], be, shots=1)
+    h.ensure("second-application.same-backend-call", out2.returned and len(be.calls) == 2 and eqv(be.calls[1][2]["select"], sel * m.sqrt(2)))
 
 
 @proof(["C15", "C06"], OPS + ":MeasureHomodyne._apply", name="MeasureHomodyne._apply/no-select")
@@ -63,8 +86,10 @@ def _homodyne_nosel(h):
     hb, m, rt, s = setup(h)
     op = ops.MeasureHomodyne(h.real("phi"))
     be = RecBackend(h)
+    snap = op_snapshot(op)
     out = h.call(op._apply, [1], be, shots=1)
     h.ensure("no-exception", out.returned)
+    h.ensure("operation-untouched", op_unchanged(op, snap))
     if out.returned:
         h.ensure("no-select-passed", be.calls[0][2]["select"] is None)
 
@@ -75,8 +100,10 @@ def _msgate(h):
     hb, m, rt, s = setup(h)
     op = ops.MSgate(h.real("r"), h.real("phi"), h.real("r_anc"), h.real("eta"), False)
     be = RecBackend(h)
+    snap = op_snapshot(op)
     out = h.call(op._apply, [0], be)
     h.ensure("no-exception", out.returned)
+    h.ensure("operation-untouched", op_unchanged(op, snap))
     if out.returned:
         # the ancilla outcome is a quadrature value: it must scale like every homodyne outcome, ~ sqrt(hbar)
         h.ensure("ancilla-outcome~sqrt(hbar)", eqv(out.value, be.outcome * s))
@@ -109,8 +136,10 @@ def _vgate(h):
     g = h.real("gamma_scaled")              # documented unit: V(gamma) = exp(i gamma x^3 / (3 hbar)); gamma = g / sqrt(hbar)
     op = ops.Vgate(g / rt)
     be = RecBackend(h)
+    snap = op_snapshot(op)
     out = h.call(op._apply, [0], be)
     h.ensure("no-exception", out.returned)
+    h.ensure("operation-untouched", op_unchanged(op, snap))
     if out.returned:
         (name, a, kw), = be.calls
         h.ensure("calls-cubic_phase", name == "cubic_phase")
@@ -131,8 +160,10 @@ def _gaussian_apply(h):
     # what Gaussian.__init__ stores: p = [V / (hbar/2), r]
     ops.Operation.__init__(op, [(Vt * (hb / 2)) / (hb / 2), rt_ * s])
     be = RecBackend(h)
+    snap = op_snapshot(op)
     out = h.call(op._apply, [0], be)
     h.ensure("no-exception", out.returned)
+    h.ensure("operation-untouched", op_unchanged(op, snap))
     if out.returned:
         (name, a, kw), = be.calls
         h.ensure("calls-prepare_gaussian_state", name == "prepare_gaussian_state")
